@@ -262,7 +262,42 @@ class Check:
             raise ToolError("TLC explored no state on %s" % cfg_name)
         return r
 
-    def replay(self, cases_file, tag="", prop_driver=None, timeout=1800):
+    OUTCOME_PATHS = ("res.ok", "res.v", "out.accept", "out.ok", "out.valid", "out.verdict", "out.acc", "outcome", "result", "ok")
+    TOTAL_OPS = {"C06": ("res.ok",)}   # specs whose operations are total: a constant 'ok' flag is not vacuity
+    CLASS_PATHS = ("op.name", "row.kind", "kind", "row.part", "row.phase", "cfg.part", "cfg.kind", "frame", "m")
+
+    def vacuity(self, cases_file):
+        """Vacuity guard: tallies, over the cases TLC emitted, the predicted outcome classes and operation kinds.
+        A table/state machine whose emitted cases all predict the same outcome exercises only one side of the
+        property (an antecedent that never holds); that is a tool error, not a pass."""
+        tallies = {}
+        with open(cases_file) as f:
+            for line in f:
+                if not line.strip():
+                    continue
+                row = json.loads(line)
+                for path in self.OUTCOME_PATHS + self.CLASS_PATHS:
+                    v = row
+                    for k in path.split("."):
+                        v = v.get(k) if isinstance(v, dict) else None
+                        if v is None:
+                            break
+                    if v is None or isinstance(v, (dict, list)):
+                        continue
+                    t = tallies.setdefault(path, {})
+                    key = json.dumps(v) if not isinstance(v, str) else v
+                    t[key] = t.get(key, 0) + 1
+        name = os.path.basename(cases_file)
+        self.extra.setdefault("case_classes", {})[name] = tallies
+        for path in self.OUTCOME_PATHS:
+            if path in tallies and len(tallies[path]) < 2 and path not in self.TOTAL_OPS.get(self.prop, ()):
+                raise ToolError("vacuity: every case of %s predicts %s=%s — one side of the property is never exercised" %
+                                (name, path, list(tallies[path])[0]))
+        return tallies
+
+    def replay(self, cases_file, tag="", prop_driver=None, timeout=1800, vacuity=True):
+        if vacuity:
+            self.vacuity(cases_file)
         rep = vh_replay(prop_driver or self.prop, cases_file, tag=tag, timeout=timeout)
         log("[%s] replay %s: %d evaluations, %d distinct non-trivial, %d mismatches" %
             (self.prop, os.path.basename(cases_file), rep["evaluations"], rep["distinct_nontrivial"],
